@@ -3,6 +3,7 @@ Line-protocol handler for channel N (network length headers, DESIGN.md §3.3):
 
   N <hdr> write <int>                → ok <hex> | err | panic
   N <hdr> read <chunk|chunk|…>       → ok <length> <consumed> [<flag>] | err | panic
+  N <hdr> writeseq <op>,<op>,…       → results joined by " | "; op = w<int> | f<k>:<int> (writer fails after k bytes → fail)
 
 hdr ∈ binary2, ascii4, bcd2, vmlh; chunks are hex, `-` is an empty chunk (a `Read` that
 returns 0 bytes); after the last chunk the reader is at EOF. `<flag>` (0/1) is printed
@@ -28,8 +29,31 @@ def showWrite : Res Bytes → String
   | .err => "err"
   | .panic => "panic"
 
+/-- one op of a write sequence: `w<int>` writes to a buffer, `f<k>:<int>` to a writer that fails
+after `k` bytes. Every write is on a new header object and headers keep no state between
+writes in the model, so each op is evaluated on its own. -/
+def seqOp (hdr : Hdr) (op : String) : Option String :=
+  match op.toList with
+  | 'w' :: rest => (String.ofList rest).toInt?.map fun n => showWrite (Net.write hdr n)
+  | 'f' :: rest =>
+    match (String.ofList rest).splitOn ":" with
+    | [k, n] =>
+      match k.toNat?, n.toInt? with
+      | some k, some n =>
+        some (match Net.write hdr n with
+          | .ok bs => if k < bs.length then "fail" else "ok " ++ toHexString bs
+          | .err => "err"
+          | .panic => "panic")
+      | _, _ => none
+    | _ => none
+  | _ => none
+
 def handleStr (toks : List String) : String :=
   match toks with
+  | ["N", h, "writeseq", ops] =>
+    match Net.ofName? h, (ops.splitOn ",").mapM (fun op => (Net.ofName? h).bind fun hdr => seqOp hdr op) with
+    | some _, some rs => " | ".intercalate rs
+    | _, _ => "bad-op"
   | ["N", h, "write", n] =>
     match Net.ofName? h, n.toInt? with
     | some hdr, some k => showWrite (Net.write hdr k)
